@@ -176,7 +176,11 @@ where
         last_eval = Some(better);
 
         if rounds > max_optimize_rounds {
-            break;
+            // the last round still changed the tx, so what we hold was built with the fee of
+            // the round before it: the fee in its body isn't the one it needs
+            return Err(Error::TransientError(format!(
+                "fees did not settle after {rounds} rounds"
+            )));
         }
 
         rounds += 1;
